@@ -1,0 +1,11 @@
+//go:build verif
+
+package asp
+
+import "github.com/thought-machine/please/src/core"
+
+// VerifValidateSandbox calls the (unexported) validateSandbox unchanged: nil if the target may opt
+// out of the sandbox under the state's configuration, an error otherwise.
+func VerifValidateSandbox(state *core.BuildState, target *core.BuildTarget) error {
+	return validateSandbox(state, target)
+}
